@@ -13,7 +13,7 @@
 
    Scalar names are interned by the harness in a FIXED order (harness/src/bin/c03.rs, `seed_interner`):
      x0..x30 -> 0..30, sp -> 31, n z c v -> 32..35, xzr -> 36, wzr -> 37,
-     then by first occurrence: temp_0x<addr> -> 38, temp_0x<addr+1> -> 39. *)
+     v0..v31 -> 38..69, then by first occurrence: temp_0x<addr> -> 70, temp_0x<addr+1> -> 71. *)
 From Coq Require Import ZArith List Bool NArith.
 From Falcon Require Import Base.Res IL.Const IL.Expr IL.Func Isa.A64.
 Import ListNotations.
@@ -27,8 +27,9 @@ Definition s_z : scalar := mks 33%N 1 None.
 Definition s_c : scalar := mks 34%N 1 None.
 Definition s_v : scalar := mks 35%N 1 None.
 Definition s_xzr : scalar := mks 36%N 64 None.
-Definition s_temp0 (bits : Z) : scalar := mks 38%N bits None.
-Definition s_temp1 (bits : Z) : scalar := mks 39%N bits None.
+Definition s_vreg (n : Z) : scalar := mks (Z.to_N (38 + n)) 128 None.      (* v0..v31 *)
+Definition s_temp0 (bits : Z) : scalar := mks 70%N bits None.
+Definition s_temp1 (bits : Z) : scalar := mks 71%N bits None.
 
 (* ------------------------------------------------------------------ register.rs *)
 Inductive areg := RX (n : Z) | RW (n : Z) | RXZR | RWZR | RSP | RWSP.
@@ -62,6 +63,7 @@ Inductive bshift :=
 
 Inductive opnd :=
 | OReg (r : areg)
+| OVReg (bits n : Z)                         (* the B / H / S / D / Q view (bits = 8 .. 128) of SIMD&FP register n *)
 | OImm32 (v : Z) (sh : option bshift)         (* v : the u64 bit pattern of the immediate *)
 | OImm64 (v : Z) (sh : option bshift)
 | OShiftReg (r : areg) (sh : bshift)
@@ -106,6 +108,7 @@ Definition maybe_shift (value : expr) (sh : option bshift) (out_bits : Z) : res 
 Definition operand_load (o : opnd) (out_bits : Z) : res expr :=
   match o with
   | OReg r => reg_get r
+  | OVReg bits n => if bits =? 128 then Ok (EScalar (s_vreg n)) else unwrap (mk_ext Trun bits (EScalar (s_vreg n)))
   | OImm32 v sh => maybe_shift (expr_const (v mod 2 ^ 32) 32) sh out_bits
   | OImm64 v sh => maybe_shift (expr_const v 64) sh out_bits
   | OShiftReg r sh => v <- reg_get r ;; shift_ v sh out_bits
@@ -121,6 +124,10 @@ Definition operand_imm_u64 (o : opnd) : res Z :=
 Definition operand_store (o : opnd) (value : expr) : res operation :=
   match o with
   | OReg r => reg_set r value
+  | OVReg _ n =>                                         (* AArch64Register::set through the full V register *)
+      if 128 <? e_bits value then Panic
+      else if e_bits value =? 128 then Ok (OAssign (s_vreg n) value)
+      else v <- unwrap (mk_ext Zext 128 value) ;; Ok (OAssign (s_vreg n) v)
   | _ => Err ECustom
   end.
 
@@ -128,6 +135,7 @@ Definition operand_store (o : opnd) (value : expr) : res operation :=
 Definition operand_storing_width (o : opnd) : res Z :=
   match o with
   | OReg r => Ok (reg_bits r)
+  | OVReg bits _ => Ok bits
   | _ => Err ECustom
   end.
 
@@ -347,6 +355,7 @@ Inductive mnem :=
 | MAdd | MAdds | MSub | MSubs | MMov
 | MLdr | MLdrb | MLdrh | MLdrsb | MLdrsh | MLdrsw | MLdp | MLdpsw
 | MStr | MStrb | MStrh | MStp
+| MNop
 | MB | MBcc (cond : Z) | MBl | MBr | MRet | MCbz | MCbnz | MTbz | MTbnz
 | MUnsupported.                     (* an Op the dispatch table of mod.rs answers with Err(unsupported()) *)
 
@@ -466,6 +475,43 @@ Definition operands_of (addr : Z) (i : instr) : mnem * list opnd :=
   | ILdStOrd size load o0 rn rt =>
       (ldst_mnem size (if load then 1 else 0),
        [OReg (xreg_zr (size =? 3) rt); OMemOffset (xreg_sp true rn) 0])
+  | IVLdStImm scale load mode scaled imm rn rt =>
+      let off := if scaled then imm * 2 ^ scale else u64 (sext_imm 9 imm) in
+      let base := xreg_sp true rn in
+      ((if load then MLdr else MStr),
+       [OVReg (8 * 2 ^ scale) rt;
+        match mode with
+        | WOffset => OMemOffset base off
+        | WPre => OMemPreIdx base off
+        | WPost => OMemPostIdxImm base off
+        end])
+  | IVLdStReg scale load rm option sbit rn rt =>
+      let k := decode_ext option in
+      let amount := if sbit then scale else 0 in
+      let sh := match k with
+                | XUXTX => if sbit then Some (BLSL amount) else None
+                | _ => Some (bext_of k amount)
+                end in
+      ((if load then MLdr else MStr),
+       [OVReg (8 * 2 ^ scale) rt; OMemExt (xreg_sp true rn) (xreg_zr (ext_is_x k) rm) sh])
+  | IVLdStPair opc mode load imm7 rt2 rn rt =>
+      let off := u64 (sext_imm 7 imm7 * 2 ^ (2 + opc)) in
+      let base := xreg_sp true rn in
+      ((if load then MLdp else MStp),
+       [OVReg (8 * 2 ^ (2 + opc)) rt; OVReg (8 * 2 ^ (2 + opc)) rt2;
+        match mode with
+        | PNoAlloc | POffset => OMemOffset base off
+        | PPre => OMemPreIdx base off
+        | PPost => OMemPostIdxImm base off
+        end])
+  | ILdStOrdU size load o0 rn rt =>
+      (ldst_mnem size (if load then 1 else 0),
+       [OReg (xreg_zr (size =? 3) rt); OMemOffset (xreg_sp true rn) 0])
+  | IOrrImm sf n immr imms rn rd =>
+      if (rn =? 31) && negb (move_wide_preferred sf n imms immr)
+      then (MMov, [OReg (xreg_sp sf rd); imm_opnd sf (decode_bit_mask (dsize sf) n immr imms) None])   (* MOV (bitmask immediate) *)
+      else (MUnsupported, [])
+  | INop => (MNop, [])
   | IBImm link imm26 => ((if link then MBl else MB), [OLabel (u64 (addr + sext_imm 28 (imm26 * 4)))])
   | IBReg opc rn =>
       ((if opc =? 0 then MBr else if opc =? 1 then MBl else MRet),
@@ -489,6 +535,7 @@ Definition dispatch (addr : Z) (m : mnem) (ops : list opnd) : res built :=
   | MLdp => b_ldp ops | MLdpsw => b_ldpsw ops
   | MStr => b_str None ops | MStrb => b_str (Some 8) ops | MStrh => b_str (Some 16) ops
   | MStp => b_stp ops
+  | MNop => Ok ([ONop None], [])
   | MB => b_b ops | MBcc c => b_bcc addr c ops | MBl => b_bl addr ops | MBr => b_br ops | MRet => b_ret ops
   | MCbz => b_cbtb addr true false ops | MCbnz => b_cbtb addr false false ops
   | MTbz => b_cbtb addr true true ops | MTbnz => b_cbtb addr false true ops
